@@ -147,4 +147,38 @@ template <class W> void h3_use()
 template void h3_use<h3_machines<h_back>>();
 template void h3_use<h3_machines<h_back11>>();
 template void h3_use<h3_machines<h_mp11>>();
+// ---- shallow history and an entering event that is DERIVED from a listed event (restores only for the listed type itself)
+struct h_resume_tagged : h_resume { int tag = 0; };
+struct h_derived_sub_ : public msm::front::state_machine_def<h_derived_sub_>
+{
+    using history = msm::front::shallow_history<h_resume>;         // backmp11: front-end typedef
+    struct A1 : h_st {}; struct A2 : h_st {};
+    typedef A1 initial_state;
+    struct transition_table : mpl::vector<msm::front::Row<A1, h_step, A2, msm::front::none, msm::front::none> > {};
+    template <class FSM, class Event> void no_transition(Event const&, FSM&, int) {}
+};
+template <class Sub>
+struct h_derived_top_ : public msm::front::state_machine_def<h_derived_top_<Sub> >
+{
+    struct Idle : h_st {};
+    typedef Idle initial_state;
+    struct transition_table : mpl::vector<
+        msm::front::Row<Idle, h_go, Sub, msm::front::none, msm::front::none>,
+        msm::front::Row<Idle, h_resume, Sub, msm::front::none, msm::front::none>,
+        msm::front::Row<Idle, h_resume_tagged, Sub, msm::front::none, msm::front::none>,
+        msm::front::Row<Sub, h_leave, Idle, msm::front::none, msm::front::none>
+    > {};
+    template <class FSM, class Event> void no_transition(Event const&, FSM&, int) {}
+};
+template <class Top> void h_derived_use()
+{
+    Top m; m.start(); m.process_event(h_go()); m.process_event(h_step()); m.process_event(h_leave());
+    m.process_event(h_resume_tagged()); m.process_event(h_leave()); m.process_event(h_resume()); m.stop();
+}
+typedef msm::back::state_machine<h_derived_sub_, msm::back::ShallowHistory<mpl::vector<h_resume> > > h_dsub_back;
+typedef msm::back11::state_machine<h_derived_sub_, void, msm::back::ShallowHistory<mpl::vector<h_resume> > > h_dsub_back11;
+typedef msm::backmp11::state_machine_adapter<h_derived_sub_> h_dsub_mp11;
+template void h_derived_use<msm::back::state_machine<h_derived_top_<h_dsub_back> > >();
+template void h_derived_use<msm::back11::state_machine<h_derived_top_<h_dsub_back11> > >();
+template void h_derived_use<msm::backmp11::state_machine_adapter<h_derived_top_<h_dsub_mp11> > >();
 }
